@@ -391,7 +391,7 @@ class TreeBuilder(object):
     def generateImpliedEndTags(self, exclude=None):
         name = self.openElements[-1].name
         # XXX td, th and tr are not actually needed
-        while (name in frozenset(("dd", "dt", "li", "option", "optgroup", "p", "rp", "rt")) and
+        while (name in frozenset(("dd", "dt", "li", "option", "optgroup", "p", "rb", "rp", "rt", "rtc")) and
                name != exclude):
             self.openElements.pop()
             # XXX This is not entirely what the specification says. We should
